@@ -111,6 +111,8 @@ def conditions(tier):
     for total, reqs in ((3, [2, 2]),) if tier == "quick" else _filecombos(2, 3):
         c = {"name": f"multi/t{total}r{''.join(map(str, reqs))}", "func": "multi", "shard": {"total": total, "reqs": reqs, "K": 4 if tier == "quick" else 5, "multi": 1}, "timeout": tmo}
         conds.extend(schedlib.with_prefixes(c, 2))
+    c = {"name": "multi-observer/t1r1", "func": "multi", "shard": {"total": 1, "reqs": [1, 1], "K": 4 if tier == "quick" else 6, "multi": 1, "observer": 1}, "timeout": tmo}
+    conds.extend(schedlib.with_prefixes(c, 2))
     conds.append({"name": "file/indep2-t3r21", "func": "capacity", "shard": {"shape": "indep2", "K": K, "token": [1, 1], "token_kind": "file", "total": 3, "reqs": [2, 1]}, "timeout": tmo})
     heavy = ("indep2", "join3", "indep3", "mixed3", "diamond4", "fork3", "two2")
     out = []
